@@ -17,6 +17,15 @@ enum { thread_id_addref_yes = 0, thread_id_addref_no = 1 };
 enum { thread_stacksize_unknown = -1, thread_stacksize_small_ = 1, thread_stacksize_medium = 2, thread_stacksize_large = 3,
        thread_stacksize_huge = 4, thread_stacksize_nostack = 5, thread_stacksize_current = 6,
        thread_stacksize_default_ = 1, thread_stacksize_minimal = 1, thread_stacksize_maximal = 4 };
+/* threads::detail::get_self_stacksize_enum(): the stack class of the task running on this OS thread.  create_thread_object is also
+ * called from add_new() inside the scheduling loop, where no task is current: the SPAWNER's stack class is not available in this
+ * function; `thread_stacksize::current` has to be resolved by create_thread in the spawning task's context (unit
+ * c01.hops.tq.create_thread: the init data leaves create_thread with stacksize != current) */
+static int get_self_stacksize_enum(void)
+{
+  VX_ASSERT(false, "create_thread_object does not consult the current task's stack class (it also runs outside any task: staged tasks are converted by the scheduling loop)");
+  return thread_stacksize_small_;
+}
 
 struct thread_data { ptrdiff_t stacksize_; bool is_stackless_; };
 struct scheduler_base { int unused; };
